@@ -16,7 +16,7 @@ sys.path.insert(0, os.path.dirname(os.path.abspath(__file__)))
 import dlib  # noqa: E402
 import c15_enc as enc  # noqa: E402
 
-from traits.api import Any, HasTraits, Instance, Int, List  # noqa: E402
+from traits.api import Any, Dict, HasTraits, Instance, Int, List, Set, Str  # noqa: E402
 from traits.observation import expression, parsing  # noqa: E402
 from traits.observation._anytrait_filter import anytrait_filter  # noqa: E402
 from traits.observation._dict_item_observer import DictItemObserver  # noqa: E402
@@ -255,29 +255,50 @@ class Leaf(HasTraits):
 
 class Root(Leaf):
     child = Instance(Leaf)
+    kids = List(Instance(Leaf))
+    table = Dict(Str, Instance(Leaf))
+    group = Set(Instance(Leaf))
+
+
+EXTRA_NAMES = {"child": 8, "kids": 10, "table": 11, "group": 12}
 
 
 def run_hook(c):
-    """Register a recording handler by the text on Root(child=Leaf()), change every trait of the root and of the
-    child once, then reassign child: which changes were reported (16*level + trait index)."""
-    root = Root(child=Leaf())
-    child = root.child
+    """Register a recording handler by the text on the probe heap of C15/Law.v (object numbers: 0 root, 1 child,
+    2 the kids list, 3 and 4 its items, 5 the table dict, 6 its value, 7 the group set, 8 its item), change every
+    number-valued trait of every Leaf once, mutate the three containers, then reassign child / kids / table / group:
+    which changes were reported (16*object + trait index; 9 = a mutation of the container itself)."""
+    root = Root(child=Leaf(), kids=[Leaf(), Leaf()], table={"k": Leaf()}, group={Leaf()})
+    objs = [root, root.child, root.kids, root.kids[0], root.kids[1], root.table, root.table["k"], root.group,
+            next(iter(root.group))]
     fired = []
 
     def handler(event):
-        level = 0 if event.object is root else 1 if event.object is child else 9
-        idx = 8 if event.name == "child" else LEAF_NAMES.index(event.name) if event.name in LEAF_NAMES else 15
-        fired.append(16 * level + idx)
+        ob = next((i for i, x in enumerate(objs) if x is event.object), 15)
+        name = getattr(event, "name", None)
+        if name is None:
+            idx = 9
+        elif name in LEAF_NAMES:
+            idx = LEAF_NAMES.index(name)
+        else:
+            idx = EXTRA_NAMES.get(name, 15)
+        fired.append(16 * ob + idx)
 
     try:
         root.observe(handler, c["s"])
     except BaseException as e:   # noqa: B902
         return {"registered": False, "fired": [], "exc": type(e).__name__}
     try:
-        for obj in (root, child):
+        for i in (0, 1, 3, 4, 6, 8):
             for n in LEAF_NAMES:
-                setattr(obj, n, getattr(obj, n) + 1)
+                setattr(objs[i], n, getattr(objs[i], n) + 1)
+        objs[2].append(Leaf())
+        objs[5]["z"] = Leaf()
+        objs[7].add(Leaf())
         root.child = Leaf()
+        root.kids = [Leaf()]
+        root.table = {}
+        root.group = set()
     except BaseException as e:   # noqa: B902
         return {"registered": True, "fired": sorted(set(fired)) + [999], "exc": type(e).__name__}
     return {"registered": True, "fired": sorted(set(fired))}
